@@ -1,4 +1,48 @@
-"""C02 — minimum-image displacements: lattice translations only, into the half-cell."""
+"""C02 — minimum-image displacements: lattice translations only, into the half-cell.
+
+CLAUSES (statement / quantifier split into axes; facet.assertion that decides each; populated class tags)
+-----------------------------------------------------------------------------------------------------------------------
+ clause / axis                                   decided by                                   classes (evidence tags)
+-----------------------------------------------------------------------------------------------------------------------
+ S1 out - in = integer combination of cell       generic,ties (1) `dn` integer to 1e-9*scale;  ortho / tri / general-*; d2 / d3;
+    vectors (lattice translations only)          cell_stream via the reference                 maxshift0..4; |f|>1.5, |f|>8.5, |f|>30
+ S2 only PERIODIC axes are translated; the       generic,ties (1) `dn[:, ppp==0] == 0`;        mask-partial / mask-full / mask-none;
+    fractional components along non-periodic     differential (6) with the mask in the         rep-mask-list/-tuple/-bool/-float, default-mask
+    axes are untouched                           reference
+ S3 periodic fractional coordinates of the       generic,ties (2) |fo| <= 1/2 + 1e-9*scale;    whole-batch-short-but-beyond-half-cell,
+    result lie in [-1/2, 1/2]                    cell_stream (same, for the cell AT CALL TIME) batch-corner-short, batch-all-inside
+ S4 invariance under prior lattice shifts of     generic,ties (3) out(in + (s*ppp).H) == out   shift-small (|s|<=3) / shift-far (|s|<=40);
+    periodic axes (away from half-cell ties)     (ties: equal modulo one lattice vector)       tie / no-tie
+ S5 idempotence                                  generic,ties (4) f(f(x)) == f(x) (no-tie)     all classes
+ S6 orthogonal cells: shortest periodic image    generic,ties (5) brute force over images:     ortho (incl. int cells); far images use the
+                                                 full product |n|<=6 for small near batches,   per-axis minimum (exact for diagonal cells,
+                                                 per-axis minimum over |n| <= |f|max+2 else    images up to |n| = 52)
+ Q1 every invertible 2x2 / 3x3 cell matrix       generic cell kinds; cell_stream kinds         ortho, tri (either tilt sign), general-full /
+                                                                                               -upper / -lower-permuted / -single-entry /
+                                                                                               -rotated-ortho; rep-int-cell (int64)
+ Q2 every set of displacement vectors, shape     generic: n = 0, 1, 2..8, size boundaries      n0, n1, n2-8, size-boundary-127..130,
+    (n,d) or (d,)                                127..130, 255..258, 511..513, 1023..1025;     -255..258, -511..513, -1023..1025;
+                                                 (d,) call for one row of EVERY case (7);      single-row-checked; call-single(d,) and
+                                                 layouts: C, Fortran order, strided view,      call-big-batch in cell_stream;
+                                                 int64 vectors                                 rep-vec-fortran / rep-vec-strided / rep-int-both
+ Q3 all real magnitudes: near (|f| <= 0.55,      generic fmax classes 0.55 / 0.75 / 1 / 4 /    all-|f|<=0.55, all-|f|<=1, far-images,
+    <= 1), far images up to |f| ~ 50             12 / 50; cell_stream mode far (|f| <= 46)     |f|>1.5, |f|>8.5, |f|>30; call-far
+ Q4 every periodicity mask in {0,1}^d            all 2^d masks (incl. all-zero), also omitted  mask-*; default-mask (d = 3, documented
+                                                 (documented default [1,1,1])                  default)
+ Q5 every integer lattice shift                  shift in [-3,3]^d or [-40,40]^d               shift-small / shift-far
+ H1 (histories) every call is the minimum image  cell_stream: reference for the contents at    call-right-after-inplace-update, update-*,
+    for the cell contents AT CALL TIME           call time, shared buffer updated in place     call-corner-short / -all-inside / -far /
+                                                                                               -single(d,) / -big-batch
+ H2 results handed out earlier stay what they    generic (8): first result re-compared after   kept-results-rechecked (cell_stream),
+    were (no recycled work buffer)               the later calls; cell_stream: ALL results of  every generic case
+                                                 the history re-compared bit-for-bit
+-----------------------------------------------------------------------------------------------------------------------
+Round-3 audit: weak before = Q2 ((d,) only for half of the n = 1 cases; n <= 8; C-contiguous float64 only), Q3 (|f| <= 4),
+Q4 (mask never omitted, all-zero mask had no tag), Q5 (|s| <= 3), S6 (brute force limited to |n| <= 6), H1 (history calls used
+mixed magnitudes |f| <= 1.5 only: no whole-batch class, no (d,), no big batch), H2 (not asserted).  All have classes now.
+Deliberately not asserted: the SHAPE returned for a (d,) input (the statement promises values only); that the input
+displacement array is left unmodified (not promised); anything at exact half-cell ties beyond "one of the two images".
+"""
 from __future__ import annotations
 
 import itertools
@@ -16,13 +60,35 @@ from ..util import arr, close, require
 
 from PyMatterSim.utils.pbc import remove_pbc
 
-RULE = ("generated cells (ortho / LAMMPS lower-triangular / general well-conditioned) x displacement sets given as "
-        "fractional coordinates f in [-4,4]^d x all periodicity masks x integer lattice shifts; non-trivial = some "
-        "vector needs a non-zero lattice shift on a periodic axis and (cell non-orthogonal or mask partial or |n|>=2)")
+RULE = ("generated cells (ortho / LAMMPS lower-triangular / general well-conditioned, also int64) x displacement sets given "
+        "as fractional coordinates f (magnitude classes |f| <= 0.55 / 0.75 / 1 / 4 / 12 / 50; batches of 0, 1, 2..8 and "
+        "127..130, 255..258, 511..513, 1023..1025 vectors; whole-batch classes: every member short but beyond the half "
+        "cell, every member inside; layouts C / Fortran / strided / int64; a (d,) call for one row of every case) x all "
+        "periodicity masks (array, list, tuple, bool, float, omitted) x integer lattice shifts |s| <= 3 or <= 40; non-trivial = "
+        "some vector needs a non-zero lattice shift on a periodic axis and (cell non-orthogonal or mask partial or "
+        "|n|>=2). cell_stream: histories over one cell buffer updated in place, calls with the same batch classes, all "
+        "earlier results re-compared after every step")
 ASSUMPTIONS = ["cell matrices have condition number <= ~50 (well-conditioned), so fractional coordinates are "
-               "recoverable to 1e-9", "half-cell ties are only asserted modulo one lattice vector"]
+               "recoverable to 1e-9", "half-cell ties are only asserted modulo one lattice vector",
+               "tolerances scale with 1 + |f|max (far images: |f| <= 50, shifted inputs up to |f| <= 90)",
+               "a (d,) input must give the VALUES of the minimum image (size d); its returned shape is not asserted"]
+MANIFEST = {
+    "text": ("remove_pbc is compared with an independent fractional-rounding reference and with the six clauses of the "
+             "statement (lattice translations only, non-periodic components untouched, half cell, shift invariance, "
+             "idempotence, shortest image for orthogonal cells) over orthogonal / triclinic / general cells, all masks "
+             "(also omitted / list / tuple / bool), batches of 0..1025 vectors incl. block-size boundaries, (d,) "
+             "vectors, far images up to 50 cells, whole-batch short-cut classes, integer / Fortran / strided "
+             "representations (facets generic, ties); histories over a cell array updated in place with every earlier "
+             "result re-checked bit-for-bit (facet cell_stream)."),
+    "note": ("Trusted base: pbt/ref/geom.py (numpy.linalg.solve + floor(x+1/2)). Cells well-conditioned (cond <= ~50); "
+             "half-cell ties asserted modulo one lattice vector only; returned shape of a (d,) input not asserted."),
+    "technique": ("property-based testing (Hypothesis): metamorphic relations + reference-model differential; stateful "
+                  "model-based testing of call histories (RuleBasedStateMachine)"),
+}
 
 EPS = 1e-9
+BOUNDARY_N = [127, 128, 129, 130, 255, 256, 257, 258, 127, 128, 129, 130, 255, 256, 257, 258,
+              511, 512, 513, 1023, 1024, 1025]      # around block sizes 128 / 256 / 512 / 1024 (EXTENSION_3 class 1)
 
 
 @st.composite
@@ -55,57 +121,115 @@ def general_cell(draw, d):
     return {"d": d, "kind": "general", "H": H, "lo": np.zeros(d), "origin": "zero", "shape": shape}
 
 
+def corner_rows(H, rng_rows):
+    """Rows short in every Cartesian component (below half the smallest perpendicular width w of the cell) but aimed at
+    the oblique corner where a fractional coordinate exceeds 1/2.  rng_rows = [(axis k, sign, u[d]), ...]."""
+    Hinv = np.linalg.inv(H)
+    w = 0.5 / np.sqrt((Hinv * Hinv).sum(axis=0)).max()
+    rows = []
+    for k, s, u in rng_rows:
+        sg = np.where(Hinv[:, k] >= 0, 1.0, -1.0) * s
+        rows.append((w * sg * np.asarray(u)) @ Hinv)
+    return np.array(rows)
+
+
+def bulk_rows(seed, n, d, fmax, batch, H):
+    """Bulk fractional coordinates for batches of hundreds of vectors from numpy's generator seeded by Hypothesis
+    (DESIGN 1.3 exception); the case stores the arrays, so replays are self-contained."""
+    rng = np.random.default_rng(seed)
+    grid = rng.integers(-64, 65, (n, d)) / 64.0 * fmax
+    cont = rng.uniform(-fmax, fmax, (n, d))
+    f = np.where(rng.random((n, d)) < 0.5, grid, cont)
+    if batch == "corner-short":
+        us = rng.choice([0.999, 0.97, 0.9, 0.8], (n, d))
+        f = corner_rows(H, [(int(rng.integers(0, d)), float(rng.choice([1.0, -1.0])), us[i]) for i in range(n)])
+    elif batch == "all-inside":
+        f = f / (2.0 * fmax) * 0.98
+    return f
+
+
 @st.composite
 def case_st(draw, tie=False):
     d = draw(st.sampled_from([2, 3]))
     ck = draw(st.sampled_from(["ortho", "tri", "general"]))
     cell = draw(general_cell(d)) if ck == "general" else draw(cell_st(d, ck, origin="zero"))
+    smax = 3
     if tie:
         # dyadic boxes, fractional coordinates exactly k + 1/2 on some axes
         H = np.diag([float(2 ** draw(st.integers(0, 4))) for _ in range(d)])
         cell = {"d": d, "kind": "ortho", "H": H, "lo": np.zeros(d), "origin": "zero"}
         n = draw(st.integers(1, 6))
         f = draw(hnp.arrays(np.float64, (n, d), elements=st.integers(-8, 8).map(lambda k: k / 2.0)))
+        batch = "ties"
     else:
-        n = draw(st.integers(1, 8))
-        # magnitude classes: displacements between particles of one box have |f| <= 1 (the usual callers), plus far images
-        fmax = draw(st.sampled_from([0.55, 0.75, 1.0, 4.0]))
-        el = st.one_of(st.integers(-64, 64).map(lambda k: k / 64.0 * fmax), fl(-fmax, fmax))
-        f = draw(hnp.arrays(np.float64, (n, d), elements=el, fill=st.nothing()))
+        size = draw(st.sampled_from(["small"] * 9 + ["one"] * 3 + ["boundary"] * 3 + ["empty"]))
+        n = draw({"small": st.integers(1, 8), "one": st.just(1), "empty": st.just(0), "boundary": st.sampled_from(BOUNDARY_N)}[size])
+        # magnitude classes: displacements between particles of one box have |f| <= 1 (the usual callers), plus far
+        # images: unwrapped trajectories / image-shifted particles, tens of cells apart
+        fmax = draw(st.sampled_from([0.55, 0.75, 1.0, 4.0, 4.0, 12.0, 50.0]))
         # whole-batch classes (EXTENSION_3 class 4): a short-cut that inspects the batch as a whole (largest Cartesian
         # component below half the smallest perpendicular width -> "nothing to fold") is switched off by one long
         # member, so batches whose members ALL sit in the critical region are constructed, not hoped for: every vector
         # short in every Cartesian component but aimed at the oblique corner of a tilted cell, where a fractional
         # coordinate exceeds 1/2 (H=[[10,0],[5,10]], r=(4,-4): s_x=0.6).
         batch = draw(st.sampled_from(["mixed", "mixed", "corner-short", "corner-short", "all-inside"]))
-        if batch == "corner-short" and ck != "ortho":
-            Hinv = np.linalg.inv(cell["H"])
-            w = 0.5 / np.sqrt((Hinv * Hinv).sum(axis=0)).max()      # half the smallest perpendicular width
-            rows = []
-            for _ in range(n):
-                k = draw(st.integers(0, d - 1))
-                sg = np.where(Hinv[:, k] >= 0, 1.0, -1.0) * draw(st.sampled_from([1.0, -1.0]))
-                u = np.array([draw(st.sampled_from([0.999, 0.97, 0.9, 0.8])) for _ in range(d)])
-                rows.append((w * sg * u) @ Hinv)
-            f = np.array(rows)
-        elif batch == "all-inside":
-            f = f / (2.0 * fmax) * 0.98          # every |f| < 1/2: nothing to fold, the input must come back
+        if batch == "corner-short" and ck == "ortho":
+            batch = "mixed"
+        if n > 8:
+            f = bulk_rows(draw(st.integers(0, 2 ** 32 - 1)), n, d, fmax, batch, cell["H"])
+        elif n == 0:
+            f = np.zeros((0, d))
+        else:
+            el = st.one_of(st.integers(-64, 64).map(lambda k: k / 64.0 * fmax), fl(-fmax, fmax))
+            f = draw(hnp.arrays(np.float64, (n, d), elements=el, fill=st.nothing()))
+            if batch == "corner-short":
+                f = corner_rows(cell["H"], [(draw(st.integers(0, d - 1)), draw(st.sampled_from([1.0, -1.0])),
+                                             [draw(st.sampled_from([0.999, 0.97, 0.9, 0.8])) for _ in range(d)])
+                                            for _ in range(n)])
+            elif batch == "all-inside":
+                f = f / (2.0 * fmax) * 0.98          # every |f| < 1/2: nothing to fold, the input must come back
+        smax = draw(st.sampled_from([3, 3, 40]))
     ppp = np.array(draw(st.sampled_from(list(itertools.product([0, 1], repeat=d)))), dtype=int)
     if draw(st.integers(0, 3)) > 0:
         ppp = np.ones(d, dtype=int) if draw(st.booleans()) else ppp
-    shift = draw(hnp.arrays(np.int64, (n, d), elements=st.integers(-3, 3)))
-    single = draw(st.booleans()) if n == 1 else False
+    if n > 8:
+        shift = np.random.default_rng(draw(st.integers(0, 2 ** 32 - 1))).integers(-smax, smax + 1, (n, d))
+    else:
+        shift = draw(hnp.arrays(np.int64, (n, d), elements=st.integers(-smax, smax)))
+    srow = draw(st.integers(0, max(0, n - 1))) if n <= 8 else draw(st.sampled_from([0, n - 1, n - 2, 127, 128, n // 2]))
     # argument representations a caller may use for the same values: a hand-built integer cell such as
-    # np.diag([10, 10, 10]) (int64), integer displacement arrays, the mask as a list
-    rep = draw(st.sampled_from(["float", "float", "float", "int-cell", "int-both", "mask-list"]))
+    # np.diag([10, 10, 10]) (int64), integer displacement arrays, the mask as a list / tuple / bool array or omitted
+    # (documented default [1,1,1]), Fortran-ordered or strided displacement arrays (a column slice of a wider table)
+    rep = draw(st.sampled_from(["float", "float", "float", "float", "int-cell", "int-both", "mask-list", "mask-tuple",
+                                "mask-bool", "mask-float", "default-mask", "vec-fortran", "vec-strided"]))
     if rep in ("int-cell", "int-both") and not tie:
         Hi = np.rint(cell["H"] * (1.0 if np.abs(np.diag(cell["H"])).min() >= 2.0 else 4.0))
         if abs(np.linalg.det(Hi)) >= 0.5 * np.prod(np.abs(np.diag(Hi))) and np.all(np.diag(Hi) != 0):
             cell = dict(cell, H=Hi)
+            if batch == "corner-short":     # rows were aimed at the corner of the un-rounded cell
+                batch = "mixed"
         else:
             rep = "float"
-    return {"d": d, "cell": cell, "f": f, "ppp": ppp, "shift": shift, "single": single, "tie": tie, "rep": rep,
-            "batch": "ties" if tie else batch}
+    if rep == "default-mask":
+        if d == 3:
+            ppp = np.ones(3, dtype=int)
+        else:
+            rep = "float"
+    return {"d": d, "cell": cell, "f": f, "ppp": ppp, "shift": shift, "single": n == 1, "tie": tie, "rep": rep,
+            "batch": batch, "srow": srow, "smax": smax}
+
+
+def shortest_per_axis(R, H, ppp, kmax):
+    """Orthogonal (diagonal) cell: the squared length of an image is a sum over axes, so the shortest image is the
+    per-axis minimum over n in [-kmax, kmax] on periodic axes.  Returns the minimum lengths."""
+    d2 = np.zeros(len(R))
+    ks = np.arange(-kmax, kmax + 1, dtype=float)
+    for a in range(H.shape[0]):
+        if ppp[a]:
+            d2 += ((R[:, a, None] + ks[None, :] * H[a, a]) ** 2).min(axis=1)
+        else:
+            d2 += R[:, a] ** 2
+    return np.sqrt(d2)
 
 
 def check(case):
@@ -124,17 +248,41 @@ def check(case):
         return M.astype(np.int64) if rep in ("int-cell", "int-both") and np.all(M == np.rint(M)) else M.copy()
 
     def as_vec(V):
-        return V.astype(np.int64) if rep == "int-both" and np.all(V == np.rint(V)) else V.copy()
+        if rep == "int-both" and np.all(V == np.rint(V)):
+            return V.astype(np.int64)
+        if rep == "vec-fortran":
+            return np.asfortranarray(V.copy())
+        if rep == "vec-strided":      # every second column of a wider table
+            wide = np.zeros((V.shape[0], 2 * V.shape[1]))
+            wide[:, ::2] = V
+            wide[:, 1::2] = 7.25
+            return wide[:, ::2]
+        return V.copy()
 
     def as_mask(m):
-        return [int(x) for x in m] if rep == "mask-list" else m.copy()
+        return {"mask-list": lambda: [int(x) for x in m], "mask-tuple": lambda: tuple(int(x) for x in m),
+                "mask-bool": lambda: np.asarray(m).astype(bool),
+                "mask-float": lambda: np.asarray(m).astype(np.float64)}.get(rep, lambda: m.copy())()
 
     _lib = remove_pbc
 
     def remove_pbc_rep(V, M, m):
+        if rep == "default-mask":     # documented default: periodic in all three dimensions
+            return _lib(as_vec(V), as_cell(M))
         return _lib(as_vec(V), as_cell(M), as_mask(m))
 
-    out = arr("remove_pbc", remove_pbc_rep(R, H, ppp), shape=(n, d)).astype(float)
+    tags = [f"d{d}", case["cell"]["kind"], "rep-" + rep, "batch-" + case.get("batch", "mixed"),
+            "mask-none" if not ppp.any() else ("mask-partial" if not ppp.all() else "mask-full"),
+            *(["general-" + case["cell"]["shape"]] if "shape" in case["cell"] else []),
+            "n0" if n == 0 else ("n1" if n == 1 else ("n2-8" if n <= 8 else f"size-boundary-{n}"))]
+    if n == 0:
+        # the empty set of displacements: an empty result with d columns (no vector to move)
+        o0 = arr("remove_pbc(empty batch)", remove_pbc_rep(R, H, ppp))
+        require(o0.size == 0, f"empty batch returned {o0.shape}")
+        return {"nontrivial": False, "tags": tags}
+
+    raw = remove_pbc_rep(R, H, ppp)
+    out = np.array(arr("remove_pbc", raw, shape=(n, d)), dtype=float)      # copy taken at return
     scale = np.abs(f).max() + 1.0
     tol = 1e-9 * scale
 
@@ -143,12 +291,13 @@ def check(case):
     # (1) lattice translations only, zero on non-periodic axes
     dn = fi - fo
     require(np.all(np.abs(dn - np.round(dn)) < tol),
-            lambda: f"output differs from input by a non-integer lattice combination: {dn.tolist()}")
+            lambda: f"output differs from input by a non-integer lattice combination: {dn[:6].tolist()}")
     require(np.all(np.abs(dn[:, ppp == 0]) < tol),
-            lambda: f"non-periodic fractional components changed: {dn.tolist()} ppp={ppp.tolist()}")
+            lambda: f"non-periodic fractional components changed: {dn[:6].tolist()} ppp={ppp.tolist()}")
     # (2) into the half cell
-    require(np.all(np.abs(fo[:, ppp == 1]) <= 0.5 + tol),
-            lambda: f"periodic fractional coordinates outside [-1/2,1/2]: {fo.tolist()} ppp={ppp.tolist()}")
+    bad = np.abs(fo[:, ppp == 1]) > 0.5 + tol
+    require(not bad.any(), lambda: f"periodic fractional coordinates outside [-1/2,1/2] in row "
+            f"{int(np.argwhere(bad)[0][0])} of {n}: {fo[np.argwhere(bad)[0][0]].tolist()} ppp={ppp.tolist()}")
     # (6) differential against the independent reference (away from ties)
     ref, tie = geom.min_image(Rin, H, ppp)
     ok = ~tie
@@ -161,14 +310,15 @@ def check(case):
                 lambda: f"tie handling moved a vector by more than one lattice vector: {dd.tolist()}")
     # (3) invariance under lattice shifts of periodic axes
     Rs = Rin + (case["shift"] * ppp) @ H
+    sscale = scale + float(np.abs(case["shift"]).max())
     out_s = arr("remove_pbc(shifted)", remove_pbc_rep(Rs, H, ppp), shape=(n, d)).astype(float)
     near_half = (np.abs(np.abs(fi - np.round(fi)) - 0.5) < 1e-6) & (ppp == 1)
     okr = ~near_half.any(axis=1)
     if okr.any():
-        close("shift invariance", out_s[okr], out[okr], rtol=1e-9, atol=1e-8 * np.abs(H).max() * scale)
+        close("shift invariance", out_s[okr], out[okr], rtol=1e-9, atol=1e-8 * np.abs(H).max() * sscale)
     if (~okr).any():
         dd = geom.frac_coords(out_s[~okr] - out[~okr], H)
-        require(np.all(np.abs(dd - np.round(dd)) < 10 * tol) and np.all(np.abs(dd) < 1 + 10 * tol),
+        require(np.all(np.abs(dd - np.round(dd)) < 10 * 1e-9 * sscale) and np.all(np.abs(dd) < 1 + 10 * 1e-9 * sscale),
                 lambda: f"shifted tie differs by more than one lattice vector: {dd.tolist()}")
     # (4) idempotence (ties excluded: rint of +-0.5 +- ulp may flip)
     out2 = arr("remove_pbc twice", remove_pbc_rep(out, H, ppp), shape=(n, d)).astype(float)
@@ -176,30 +326,43 @@ def check(case):
         close("idempotence", out2[ok], out[ok], rtol=1e-9, atol=1e-9 * np.abs(H).max() * scale)
     # (5) orthogonal cells: shortest of all periodic images
     if case["cell"]["kind"] == "ortho":
-        rng = [range(-6, 7) if p else [0] for p in ppp]
-        imgs = np.array(list(itertools.product(*rng)), dtype=float) @ H
-        allimg = Rin[:, None, :] + imgs[None, :, :]
-        dmin = np.sqrt((allimg ** 2).sum(axis=2)).min(axis=1)
         dout = np.sqrt((out ** 2).sum(axis=1))
-        require(np.all(np.abs(dout - dmin) <= 1e-9 * (1 + dmin)),
-                lambda: f"not the shortest image: |out|={dout.tolist()} min={dmin.tolist()}")
-    # (7) a single vector of shape (d,) gives the same values
-    if case["single"]:
-        o1 = np.asarray(remove_pbc(Rin[0].copy(), H.copy(), ppp.copy()))
-        require(o1.size == d, f"(d,) input returned {o1.shape}")
-        close("(d,) input", o1.reshape(-1), out[0], rtol=1e-12, atol=1e-12 * np.abs(H).max() * scale)
+        if n <= 8 and np.abs(f).max() <= 5.0:
+            rng = [range(-6, 7) if p else [0] for p in ppp]
+            imgs = np.array(list(itertools.product(*rng)), dtype=float) @ H
+            allimg = Rin[:, None, :] + imgs[None, :, :]
+            dmin = np.sqrt((allimg ** 2).sum(axis=2)).min(axis=1)
+        else:
+            dmin = shortest_per_axis(Rin, H, ppp, int(np.ceil(np.abs(f).max())) + 2)
+        require(np.all(np.abs(dout - dmin) <= 1e-9 * scale * (1 + dmin)),
+                lambda: f"not the shortest image: |out|={dout[:6].tolist()} min={dmin[:6].tolist()}")
+    # (7) a single vector of shape (d,) gives the values of its minimum image (one row of every case)
+    k = int(case.get("srow", 0)) % n
+    o1 = arr("remove_pbc((d,) input)", _lib(as_vec(Rin)[k], as_cell(H), as_mask(ppp)))
+    require(o1.size == d, f"(d,) input returned shape {o1.shape}")
+    o1 = o1.reshape(-1).astype(float)
+    if not tie[k]:
+        close("(d,) input vs reference", o1, ref[k], rtol=1e-9, atol=1e-9 * np.abs(H).max() * scale)
+    f1 = geom.frac_coords(o1, H)[0]
+    require(np.all(np.abs(f1[ppp == 1]) <= 0.5 + tol),
+            lambda: f"(d,) input: periodic fractional coordinates outside [-1/2,1/2]: {f1.tolist()} ppp={ppp.tolist()}")
+    # (8) the result handed out first is still what it was after the later calls
+    require(np.array_equal(np.asarray(raw, dtype=float), out), "the array returned by the first call changed during later calls")
     # inputs untouched
     require(np.array_equal(H, Hin), "hmatrix modified")
 
     nshift = np.round(fi - fo)
     moved = np.any(nshift[:, ppp == 1] != 0)
     nontrivial = bool(moved and (case["cell"]["kind"] != "ortho" or not ppp.all() or np.abs(nshift).max() >= 2))
-    tags = [f"d{d}", case["cell"]["kind"], "mask-partial" if not ppp.all() else "mask-full", "rep-" + rep,
-            *(["general-" + case["cell"]["shape"]] if "shape" in case["cell"] else []),
-            "all-|f|<=0.55" if np.abs(f).max() <= 0.55 else ("all-|f|<=1" if np.abs(f).max() <= 1 else "far-images"),
-            "inside-cartesian-half-box" if np.all(np.abs(R) <= 0.5 * np.abs(np.diag(H))) else "outside-cartesian-half-box",
-            "tie" if tie.any() else "no-tie", "single" if case["single"] else "batch",
-            f"maxshift{int(min(np.abs(nshift).max(), 4))}", "batch-" + case.get("batch", "mixed")]
+    fm = np.abs(f).max()
+    tags += ["all-|f|<=0.55" if fm <= 0.55 else ("all-|f|<=1" if fm <= 1 else "far-images"),
+             *[t for t, v in (("|f|>1.5", 1.5), ("|f|>8.5", 8.5), ("|f|>30", 30.0)) if fm > v],
+             "inside-cartesian-half-box" if np.all(np.abs(R) <= 0.5 * np.abs(np.diag(H))) else "outside-cartesian-half-box",
+             "tie" if tie.any() else "no-tie", "single" if case["single"] else "batch", "single-row-checked",
+             "shift-far" if case.get("smax", 3) > 3 else "shift-small",
+             f"maxshift{int(min(np.abs(nshift).max(), 4))}"]
+    if n > 8 and np.any(nshift[-1, ppp == 1] != 0):
+        tags.append("big-batch-last-row-folded")
     Hinv_ = np.linalg.inv(H)
     wmin = 0.5 / np.sqrt((Hinv_ * Hinv_).sum(axis=0)).max()
     if np.abs(R).max() < wmin and np.any(np.abs(fi[:, ppp == 1]) > 0.5 + 1e-6):
@@ -208,8 +371,8 @@ def check(case):
 
 
 def describe(case):
-    return {"H": np.round(case["cell"]["H"], 4).tolist(), "f": np.round(case["f"], 4).tolist()[:3],
-            "ppp": case["ppp"].tolist(), "kind": case["cell"]["kind"]}
+    return {"H": np.round(case["cell"]["H"], 4).tolist(), "f": np.round(case["f"], 4).tolist()[:3], "n": len(case["f"]),
+            "ppp": case["ppp"].tolist(), "kind": case["cell"]["kind"], "rep": case.get("rep"), "batch": case.get("batch")}
 
 
 # ----------------------------------------------------------------------------- histories
@@ -218,7 +381,9 @@ def describe(case):
 class CellStream(RecordingMachine):
     """History facet: one preallocated cell array is updated IN PLACE between calls (frame streaming, NPT / shear
     runs), interleaved with calls on other array objects.  Every call must be the minimum image for the cell contents
-    at call time, whatever was computed before (no hidden state keyed on array identity / shape)."""
+    at call time, whatever was computed before (no hidden state keyed on array identity / shape), for every batch
+    class of the generic facet (mixed, all members short but beyond the half cell, all inside, far images, a (d,)
+    vector, a batch of 127..258 vectors); every result handed out earlier must still be what it was at return."""
 
     def __init__(self):
         super().__init__()
@@ -226,6 +391,7 @@ class CellStream(RecordingMachine):
         self.buf = None
         self.last_update = None  # step index of the last in-place update
         self.calls_since_update = 0
+        self.kept = []           # (object returned by the library, copy taken at return, step number)
 
     def _newcell(self, d, diag, off, kind):
         H = np.diag(np.array(diag[:d], dtype=float))
@@ -263,13 +429,43 @@ class CellStream(RecordingMachine):
         self.calls_since_update = 0
         self.tag("update-" + how)
 
-    def _check(self, H, fr, ppp, same_object):
+    def _vectors(self, Hnow, fr, mode, seed):
+        """Fractional coordinates of the batch of this call; (f, single)."""
         d = self.d
         f = np.array(fr, dtype=float).reshape(-1, 3)[:, :d]
+        rng = np.random.default_rng(seed)
+        tilted = bool(np.any(Hnow - np.diag(np.diag(Hnow))))
+        if mode == "corner-short" and tilted:
+            us = rng.choice([0.999, 0.97, 0.9, 0.8], (len(f), d))
+            f = corner_rows(Hnow, [(int(rng.integers(0, d)), float(rng.choice([1.0, -1.0])), us[i]) for i in range(len(f))])
+        elif mode == "all-inside":
+            f = f / 3.0 * 0.98              # fr in [-1.5, 1.5] -> every |f| < 1/2
+        elif mode == "far":
+            f = f * 31.0                    # up to 46.5 cells away (31 k/64 is a half-integer for k = +-32, +-96 only)
+        elif mode == "big":
+            f = rng.uniform(-2.0, 2.0, (int(rng.choice(BOUNDARY_N[:8])), d))
+        elif mode not in ("given", "single"):
+            mode = "given"
+        return f, mode
+
+    def _check(self, H, fr, ppp, same_object, mode="given", seed=0):
+        d = self.d
         ppp = np.array(ppp[:d], dtype=int)
         Hnow = np.array(H, dtype=float, copy=True)
+        f, mode = self._vectors(Hnow, fr, mode, seed)
         R = f @ Hnow
-        out = arr("remove_pbc", remove_pbc(R.copy(), H if same_object else Hnow.copy(), ppp.copy()), shape=R.shape)
+        Harg = H if same_object else Hnow.copy()
+        if mode == "single":
+            R = R[:1]
+            f = f[:1]
+            raw = remove_pbc(R[0].copy(), Harg, ppp.copy())
+            o = arr("remove_pbc((d,) input)", raw)
+            require(o.size == d, f"(d,) input returned shape {o.shape}")
+            out = o.reshape(1, d)
+        else:
+            raw = remove_pbc(R.copy(), Harg, ppp.copy())
+            out = arr("remove_pbc", raw, shape=R.shape)
+        self.kept.append((raw, np.array(raw, copy=True), len(self.log)))
         require(np.array_equal(np.asarray(H), Hnow), "hmatrix modified by remove_pbc")
         ref, tie = geom.min_image(R, Hnow, ppp)
         ok = ~tie
@@ -279,19 +475,27 @@ class CellStream(RecordingMachine):
                   atol=1e-9 * np.abs(Hnow).max() * scale)
         fo = geom.frac_coords(out, Hnow)
         require(np.all(np.abs(fo[:, ppp == 1]) <= 0.5 + 1e-9 * scale),
-                lambda: f"periodic fractional coordinates outside [-1/2,1/2] for the current cell: {fo.tolist()}")
+                lambda: f"periodic fractional coordinates outside [-1/2,1/2] for the current cell: {fo[:6].tolist()}")
+        self.tag("call-" + {"single": "single(d,)", "big": "big-batch"}.get(mode, mode))
+        fi = geom.frac_coords(R, Hnow)
+        Hinv = np.linalg.inv(Hnow)
+        if (np.abs(R).max() < 0.5 / np.sqrt((Hinv * Hinv).sum(axis=0)).max()
+                and np.any(np.abs(fi[:, ppp == 1]) > 0.5 + 1e-6)):
+            self.tag("whole-batch-short-but-beyond-half-cell")
+
+    MODES = ["given", "given", "given", "corner-short", "corner-short", "corner-short", "corner-short", "all-inside", "far", "single", "big"]
 
     @precondition(lambda self: self.buf is not None)
     @rule(fr=st.lists(st.integers(-96, 96).map(lambda k: k / 64.0), min_size=3, max_size=12).filter(lambda x: len(x) % 3 == 0),
-          ppp=st.lists(st.integers(0, 1), min_size=3, max_size=3))
-    def r_call(self, fr, ppp):
-        self.step("call", fr=fr, ppp=ppp)
-        self.do_call(fr=fr, ppp=ppp)
+          ppp=st.lists(st.integers(0, 1), min_size=3, max_size=3), mode=st.sampled_from(MODES), seed=st.integers(0, 2 ** 31 - 1))
+    def r_call(self, fr, ppp, mode, seed):
+        self.step("call", fr=fr, ppp=ppp, mode=mode, seed=seed)
+        self.do_call(fr=fr, ppp=ppp, mode=mode, seed=seed)
 
-    def do_call(self, fr, ppp):
+    def do_call(self, fr, ppp, mode="given", seed=0):
         first_after_update = self.calls_since_update == 0 and any(n == "update" for n, _ in self.log[:-1])
         earlier_call = any(n == "call" for n, _ in self.log[:-1])
-        self._check(self.buf, fr, ppp, same_object=True)
+        self._check(self.buf, fr, ppp, same_object=True, mode=mode, seed=seed)
         self.calls_since_update += 1
         if first_after_update and earlier_call:
             self.info["nontrivial"] = True
@@ -300,14 +504,28 @@ class CellStream(RecordingMachine):
 
     @precondition(lambda self: self.buf is not None)
     @rule(fr=st.lists(st.integers(-96, 96).map(lambda k: k / 64.0), min_size=3, max_size=6).filter(lambda x: len(x) % 3 == 0),
-          ppp=st.lists(st.integers(0, 1), min_size=3, max_size=3), diag=st.lists(st.integers(4, 80).map(lambda k: k / 4.0), min_size=3, max_size=3))
-    def r_other(self, fr, ppp, diag):
-        self.step("other", fr=fr, ppp=ppp, diag=diag)
-        self.do_other(fr=fr, ppp=ppp, diag=diag)
+          ppp=st.lists(st.integers(0, 1), min_size=3, max_size=3), diag=st.lists(st.integers(4, 80).map(lambda k: k / 4.0), min_size=3, max_size=3),
+          mode=st.sampled_from(["given", "given", "far", "single"]))
+    def r_other(self, fr, ppp, diag, mode):
+        self.step("other", fr=fr, ppp=ppp, diag=diag, mode=mode)
+        self.do_other(fr=fr, ppp=ppp, diag=diag, mode=mode)
 
-    def do_other(self, fr, ppp, diag):
-        self._check(np.diag(np.array(diag[:self.d], dtype=float)), fr, ppp, same_object=False)
+    def do_other(self, fr, ppp, diag, mode="given"):
+        self._check(np.diag(np.array(diag[:self.d], dtype=float)), fr, ppp, same_object=False, mode=mode)
         self.tag("call-other-array")
+
+    def check_invariants_now(self):
+        # results handed out earlier must stay what they were (a recycled work buffer returned to the caller is right
+        # at the moment of return and wrong after the next call of the same shape)
+        for raw, copy, stepno in self.kept:
+            require(np.array_equal(np.asarray(raw), copy),
+                    f"the array returned by the call of step {stepno} changed after a later call")
+        if len(self.kept) >= 2:
+            self.tag("kept-results-rechecked")
+
+    @invariant()
+    def inv(self):
+        self.check_invariants_now()
 
 
 def describe_history(log):
@@ -316,11 +534,12 @@ def describe_history(log):
 
 FACETS = [
     Facet("generic", case_st(False), check, quick=3000, thorough=300000, describe=describe, shards_quick=4,
-          rule="random cells/vectors/masks; non-trivial as in RULE"),
-    Facet("ties", case_st(True), check, quick=500, thorough=30000, describe=describe,
+          quick_budget_s=240.0, rule="random cells/vectors/masks; non-trivial as in RULE"),
+    Facet("ties", case_st(True), check, quick=500, thorough=30000, describe=describe, quick_budget_s=240.0,
           rule="dyadic orthogonal boxes with fractional coordinates exactly k/2; non-trivial as in RULE"),
     Facet("cell_stream", machine=CellStream, quick=300, thorough=20000, steps=10, describe=describe_history,
+          quick_budget_s=240.0,
           rule="histories of calls sharing one cell array that is updated in place between calls, interleaved with calls "
-               "on other arrays; non-trivial = a call on the shared array right after an in-place update that follows an "
-               "earlier call"),
+               "on other arrays; batch classes as in generic; all earlier results re-compared after every step; "
+               "non-trivial = a call on the shared array right after an in-place update that follows an earlier call"),
 ]
